@@ -147,10 +147,13 @@ def rule_idsrc(filter_names=None):
         for p in crate.fn_paths():
             f_ = prog.fns[p]
             rootf = prog.fns.get(f_.get("root"), f_)
-            if rootf.get("impl_self", {}).get("path") != AMAP or rootf["arg_count"] < 1:
+            isf = rootf.get("impl_self", {})
+            # blanket impls `impl<D: ..> Op for D` of graaf::op apply to AdjacencyMap as well
+            blanket = isf.get("k") == "param" and rootf["path"].startswith("graaf::op::")
+            if (isf.get("path") != AMAP and not blanket) or rootf["arg_count"] < 1:
                 continue
             t1 = rootf["locals"][1]["ty"]
-            if not (t1["k"] == "ref" and t1["to"].get("path") == AMAP):
+            if not (t1["k"] == "ref" and (t1["to"].get("path") == AMAP or (blanket and t1["to"].get("k") == "param"))):
                 continue
             if filter_names is not None and rootf.get("name") not in filter_names:
                 continue
@@ -1593,9 +1596,10 @@ def rule_seed_total(crate, prop, tier):
 
 # ---------------------------------------------------------------------------
 def rule_unit_interval(crate, prop, tier):
-    """C15: Xoshiro256StarStar::next_f64 lies in [0, 1): decided for the two usual constructions
-    (a) f64::from_bits(0x3FF << 52 | (x & (2^52 - 1))) - 1.0 and (b) (x & M) as f64 / C (or (x >> k) as f64 / C)
-    by integer interval arithmetic on the constants"""
+    """C15: Xoshiro256StarStar::next_f64 lies in [0, 1): decided for the usual constructions
+    (a) f64::from_bits(0x3FF << 52 | (x & (2^52 - 1))) - 1.0, (b) (x & M) as f64 / C (or (x >> k) as f64 / C) by integer
+    interval arithmetic on the constants, (c) (x [& M | >> k]) as f64 * C by evaluating the largest value in IEEE double
+    arithmetic (u64::MAX as f64 rounds up to 2^64, so `x as f64 * 2^-64` reaches 1.0)"""
     o = Obl("UNIT-INTERVAL")
     ps = [p for p in crate.fn_paths() if p.endswith("::next_f64") and "xoshiro" in p]
     for p in ps:
@@ -1647,7 +1651,35 @@ def rule_unit_interval(crate, prop, tier):
             if num is not None and den is not None:
                 verdict = 0 < den and num < den and den <= (1 << 53)
         elif r is not None and r[0] == "bin" and r[1] == "Mul":
-            verdict = None
+            # (integer expression of the draw) as f64 * C: both steps are monotone and correctly rounded, so the largest
+            # result is float(largest integer) * C in IEEE double arithmetic (Python floats are IEEE doubles)
+            def fconst(t):
+                if t[0] == "constx" and t[1] == "f64" and t[2].endswith("f64"):
+                    try:
+                        return float(t[2][:-3])
+                    except ValueError:
+                        return None
+                if t[0] == "bin" and t[1] in ("Div", "Mul"):
+                    a1, b1 = fconst(t[2]), fconst(t[3])
+                    if a1 is not None and b1 is not None and (t[1] == "Mul" or b1 != 0):
+                        return a1 / b1 if t[1] == "Div" else a1 * b1
+                return None
+
+            def draw_upper(t):
+                u = upper(t)
+                if u is not None:
+                    return u
+                if t[0] == "cast" and t[1] in ("IntToFloat", "IntToInt"):
+                    return draw_upper(t[2])
+                if t[0] == "field" and t[1][0] == "dc" and t[1][2] == "Some" and t[1][1][0] == "site" and t[1][1][2] == ITER_NEXT:
+                    return (1 << 64) - 1       # the raw 64-bit draw
+                return None
+            for a_, b_ in ((r[2], r[3]), (r[3], r[2])):
+                cst = fconst(b_)
+                if cst is not None and a_[0] == "cast" and a_[1] == "IntToFloat":
+                    u = draw_upper(a_[2])
+                    if u is not None and cst > 0:
+                        verdict = float(u) * cst < 1.0
         if verdict is None:
             o.undecide(who, "unit-interval", "next_f64 is not built in one of the two forms the rule evaluates")
         else:
